@@ -1,6 +1,7 @@
 """C20 — zone files: panic census and loop termination over the master-file cone, lexer delimiter classes, default
 inheritance dataflow, RData::from_tokens table, origin passed to every embedded name."""
 import re
+import argnames
 from collections import Counter, defaultdict
 import core, census, loops
 import statemachine as sm
@@ -117,6 +118,12 @@ def run(cx):
 
 
 # ------------------------------------------------------------------------------------------------ exemption facts
+
+    # ---------------------------------------------------------------- N1 argument names agree with the parameters they are bound to (engine/argnames.py)
+    argnames.check(cx, 'C20.N1', r'hickory_proto::serialize::txt', floor=10)
+    argnames.check_fields(cx, 'C20.N1', r'hickory_proto::serialize::txt', floor=11)
+
+
 def exemption_checks(cx, cn, used):
     prog = cx.prog
     # uppercase-callers: every call of DNSClass/RecordType::from_str in the cone gets an upper-cased argument
@@ -196,6 +203,7 @@ def lexer_model(cx):
             consume.add(bi)
     cx.floor('C20.L1', len(consume), 12, 'consuming calls in the lexer')
     return f, heads[0], consume
+
 
 
 def lexer_termination(cx):
